@@ -1,7 +1,5 @@
-\* mode M for the lexer automaton: every text of up to MaxLen code-point classes over Sigma
-CONSTANT Sigma = {"Q", "BS", "a", "n", "u", "D", "8", "LF", "SP"}
-CONSTANT MaxLen = 5
-CONSTANT First = {"Q", "BS", "a", "n", "u", "D", "8", "LF", "SP"}
+\* mode M for the lexer automaton: every text of up to 5 code-point classes over 9 classes
+CONSTANT LRuns <- LRunsM
 INIT LInit
 NEXT LNext
 INVARIANT LTypeOK
